@@ -5,6 +5,7 @@ CONSTANTS
   Home <- LHome
   InitSeq <- LInit
   InitTok <- LInitTok
+  InitRaw = {}
   HasLF0 = FALSE
   HasAT0 = FALSE
   Slack = 2
